@@ -36,8 +36,8 @@ class C08 : public Check
 public:
     const char *id() { return "C08"; }
     const char *opName(int k) { return qName(k); }
-    int quickRuns() { return 4000; }
-    int quickSeconds() { return 70; }
+    int quickRuns() { return 24000; }
+    int quickSeconds() { return 90; }
     int thoroughSeconds() { return 900; }
     const char *rule()
     {
